@@ -44,19 +44,17 @@ def register(fixed, known):
            "quantifier grounding) -- one coherent rewrite of ~100 lines, not a small patch")
     GP = "models.grounded_precondition"
     for prop, rule in (("C02", "C02.translate"), ("C20", "C20.translate")):
-        known(prop, rule, GP, "GroundedPrecondition._ground", "arm:Precondition",
+        known(prop, rule, GP, "GroundedPrecondition.ground_preconditions", "arm:Precondition",
               "a nested and/or condition is grounded and then dropped: (and (or (p ?x) (q ?x))) is applicable with both false", kf2, "fixes/demos.py K2")
-        known(prop, rule, GP, "GroundedPrecondition._ground", "arm:UniversalPrecondition",
+        known(prop, rule, GP, "GroundedPrecondition.ground_preconditions", "arm:UniversalPrecondition",
               "a forall precondition is never attached to the grounded precondition: it is ignored", kf2, "fixes/demos.py K2")
-        known(prop, rule, GP, "GroundedPrecondition._ground_universal_condition", "arm:else:Precondition",
+        known(prop, rule, GP, "GroundedPrecondition.is_applicable", "forall-arm:else:Precondition",
               "nested conditions inside a forall body are skipped (latent: unreachable while the forall itself is ignored)", kf2)
-        known(prop, rule, GP, "GroundedPrecondition._ground_universal_condition", "arm:else:UniversalPrecondition",
+        known(prop, rule, GP, "GroundedPrecondition.is_applicable", "forall-arm:else:UniversalPrecondition",
               "nested quantifiers inside a forall body are skipped (latent)", kf2)
-    known("C02", "C02.foldid", GP, "GroundedPrecondition._is_condition_applicable", "fold-init:or",
+    known("C02", "C02.foldid", GP, "GroundedPrecondition.is_applicable", "fold-init:or:compound",
           "the and/or fold starts from True for both operators: an `or` node is true whatever its disjuncts are", kf2, "fixes/demos.py K2")
-    known("C02", "C02.foldid", GP, "GroundedPrecondition._validate_universal_precondition", "fold-init:or", "same fold in the quantifier evaluator (latent)", kf2)
-    known("C02", "C02.foldarms", GP, "GroundedPrecondition._is_condition_applicable", "arm-overwrites:UniversalPrecondition",
-          "the arm for quantified conditions overwrites the accumulator and is shadowed by the Precondition arm (latent: dead code)", kf2)
+    known("C02", "C02.foldid", GP, "GroundedPrecondition.is_applicable", "fold-init:or:forall", "same fold in the quantifier evaluator (latent)", kf2)
     known("C11", "C11.eof", "lisp_parsers.pddl_tokenizer", "PDDLTokenizer.parse", "missing:end-of-input-check",
           "'(a b))' and '(a b) (c d)' are accepted and the tail is ignored",
           "three tests of the repository's wider suite (domain_parser_test x2, numerical_expression_test x1) feed text with surplus closing "
